@@ -288,11 +288,14 @@ static void ref_check_scalar(const ldb_edit_t *e, const ref_rec_t *A, const ref_
   CHECK(e->has_last_sequence == (R != 0) && e->last_sequence == (R ? R->num : 0), "edit_import: tag 4 sets exactly last_sequence");
 }
 
-void h_edit_import2(void) {
-  IN_SIZE(in_n); IN_BUF(buf, in_n); SNAP_BUF(buf, in_n);
+#define IMPORT_MAX 40
+static void import_upto(int maxrec) {
+  /* the input occupies the END of a fixed 40-byte object, so any read past the input's end is out of bounds */
+  IN_SIZE(in_n); IN_BYTES(in_store, IMPORT_MAX); uint8_t *buf;
   ldb_edit_t edit; ldb_slice_t src; int r;
   ref_rec_t A, B; size_t la, lb = 0; int nrec, bad;
   size_t ecp, edel, enew;
+  ASSUME(in_n <= IMPORT_MAX); buf = in_store + (IMPORT_MAX - in_n);
   src.data = buf; src.size = in_n; src.alloc = 0;
   g_edit = &edit; g_src = buf; g_srcn = in_n; g_ncp = 0; g_ndel = 0; g_nnew = 0; g_exact_set = 1;
   /* reference decoding of up to two records */
@@ -302,6 +305,7 @@ void h_edit_import2(void) {
     if (la == 0) bad = 1;
     else {
       nrec = 1;
+      if (maxrec == 1) ASSUME(la == in_n); /* bound of edit.import1: a single record */
       if (in_n - la > 0) {
         lb = ref_record(&B, buf + la, in_n - la);
         if (lb == 0) bad = 1;
@@ -345,5 +349,6 @@ void h_edit_import2(void) {
             "edit_import: second new file appended after the first");
   }
   CHECK(src.data == buf && src.size == in_n, "edit_import: the source slice is not modified");
-  CANARY();
 }
+void h_edit_import1(void) { import_upto(1); CANARY(); }
+void h_edit_import2(void) { import_upto(2); CANARY(); }
